@@ -102,6 +102,18 @@ func verifyFunc(g *Global, fn *ssa.Function, fc *FuncContract) *FuncResult {
 		}
 		ex.vc.assume(tTrue, ex.vc.def("req", fact), "requires "+rq.Label)
 	}
+	for _, gv := range fc.Given {
+		se := ex.newSpecEnv(fr, tTrue, st, st)
+		se.entryPar = true
+		fact, err := se.evalBool(gv.E)
+		if err != nil {
+			o := &Obligation{ID: fmt.Sprintf("%s#given.%s", ex.fnID, gv.Label), Func: ex.fnID, Kind: "spec", Props: gv.Props, Detail: "spec error: " + err.Error(), Where: fmt.Sprintf("%s:%d", gv.File, gv.Line)}
+			ex.vc.oblige(o, tTrue, tFalse)
+			continue
+		}
+		ex.vc.assume(tTrue, ex.vc.def("given", fact), "given "+gv.Label)
+		ex.assumed[fmt.Sprintf("%s: representation invariant %s assumed on entry: %s (%s)", shortID(ex.fnID), gv.Label, gv.Src, gv.Why)] = true
+	}
 	// vacuity: the preconditions together with the type invariants are satisfiable
 	ex.vc.cover(&Obligation{ID: ex.fnID + "#cover.requires", Func: ex.fnID, Kind: "cover", Props: fc.Props}, tTrue)
 	rpc, rst, results := ex.execFn(fr, tTrue, st)
